@@ -87,12 +87,12 @@ Qed.
 Lemma bytes_of_app a b : bytes_of (a ++ b) = bytes_of a ++ bytes_of b.
 Proof. unfold bytes_of, unrecords. apply flat_map_app. Qed.
 
-Theorem stateless_tool_split (F : list line -> list line) :
+Theorem stateless_tool_split (F : list line -> list line) (cr : bool) :
   (forall a b, F (a ++ b) = F a ++ F b) ->
-  forall A B, bytes_of (F (lines_of (A ++ newline :: B))) =
-              bytes_of (F (lines_of (A ++ [newline]))) ++ bytes_of (F (lines_of B)).
+  forall A B, bytes_of (F (records newline cr (A ++ newline :: B))) =
+              bytes_of (F (records newline cr (A ++ [newline]))) ++ bytes_of (F (records newline cr B)).
 Proof.
-  intros HF A B. unfold lines_of. rewrite records_app_terminated, HF. apply bytes_of_app.
+  intros HF A B. rewrite records_app_terminated, HF. apply bytes_of_app.
 Qed.
 
 (* ---- subtract_lines and commoncrawl_dedupe on the seen-set ---- *)
@@ -300,6 +300,163 @@ Section SimpleCleaning.
     intros _. destruct (sc_loop_safe _ _ _ _ H) as [W S]. split; auto.
   Qed.
 
+  (* ---- exact threshold --min-chars: the count compared with it is the number of code points ---- *)
+  Fixpoint codepoints_fuel (fuel : nat) (bs : list Z) : option (list Z) :=
+    match bs with
+    | [] => Some []
+    | _ =>
+      match fuel with
+      | O => None
+      | S f => match decode1 bs with
+               | Some (c, r) => match codepoints_fuel f r with Some cs => Some (c :: cs) | None => None end
+               | None => None
+               end
+      end
+    end.
+  Definition codepoints (bs : list Z) : option (list Z) := codepoints_fuel (length bs) bs.
+
+  Lemma sc_char_total st c st' : sc_char st c = Some st' -> total st' = (total st + 1)%N.
+  Proof.
+    unfold FiltersDefs.sc_char.
+    destruct ((c <? sc_control_bound) && negb (c =? 9) && negb (c =? 13)); [discriminate|].
+    destruct (script_of c); [|discriminate].
+    destruct (previous st =? c).
+    - match goal with |- context [if ?b then None else _] => destruct b end; [discriminate|].
+      intros H; injection H as <-. reflexivity.
+    - intros H; injection H as <-. reflexivity.
+  Qed.
+
+  Lemma sc_loop_total : forall fuel st bs st', sc_loop fuel st bs = Some st' ->
+    exists cps, codepoints_fuel fuel bs = Some cps /\ total st' = (total st + N.of_nat (length cps))%N.
+  Proof.
+    induction fuel as [|fuel IH]; intros st bs st' H; destruct bs as [|b r].
+    - injection H as <-. exists []. split; [reflexivity|simpl; lia].
+    - discriminate.
+    - injection H as <-. exists []. split; [reflexivity|simpl; lia].
+    - cbn [FiltersDefs.sc_loop] in H. cbn [codepoints_fuel].
+      destruct (decode1 (b :: r)) as [[c r']|] eqn:D; [|discriminate].
+      destruct (sc_char st c) as [st1|] eqn:C; [|discriminate].
+      destruct (IH _ _ _ H) as (cps & Hc & Ht). rewrite Hc. exists (c :: cps). split; [reflexivity|].
+      rewrite Ht, (sc_char_total _ _ _ C). simpl length. lia.
+  Qed.
+
+  (* a field that passes has at least --min-chars code points (one fewer and it is dropped) *)
+  Theorem sc_filter_min_chars l : sc_filter l = true ->
+    exists cps, codepoints l = Some cps /\ (sc_min_chars o <= N.of_nat (length cps))%N.
+  Proof.
+    unfold FiltersDefs.sc_filter. destruct (sc_loop (length l) sc_init l) as [st|] eqn:H; [|discriminate].
+    destruct (sc_loop_total _ _ _ _ H) as (cps & Hc & Ht). cbn [total sc_init] in Ht.
+    destruct (N.ltb_spec (total st) (sc_min_chars o)); [discriminate|]. intros _.
+    exists cps. split; [exact Hc|]. lia.
+  Qed.
+
+  (* ---- exact threshold --character-run: no kept field contains `character_run` equal consecutive
+          non-space code points (for character_run >= 2) ---- *)
+  Definition sc_fold (st : sc_state) (cps : list Z) : option sc_state :=
+    fold_left (fun acc c => match acc with Some s => sc_char s c | None => None end) cps (Some st).
+
+  Lemma sc_fold_none cps : fold_left (fun acc c => match acc with Some s => sc_char s c | None => None end) cps None = None.
+  Proof. induction cps; simpl; auto. Qed.
+
+  Lemma sc_loop_fold : forall fuel st bs st', sc_loop fuel st bs = Some st' ->
+    exists cps, codepoints_fuel fuel bs = Some cps /\ sc_fold st cps = Some st'.
+  Proof.
+    induction fuel as [|fuel IH]; intros st bs st' H; destruct bs as [|b r].
+    - injection H as <-. exists []. split; reflexivity.
+    - discriminate.
+    - injection H as <-. exists []. split; reflexivity.
+    - cbn [FiltersDefs.sc_loop] in H. cbn [codepoints_fuel].
+      destruct (decode1 (b :: r)) as [[c r']|] eqn:D; [|discriminate].
+      destruct (sc_char st c) as [st1|] eqn:C; [|discriminate].
+      destruct (IH _ _ _ H) as (cps & Hc & Hf). rewrite Hc. exists (c :: cps). split; [reflexivity|].
+      unfold sc_fold. simpl. rewrite C. exact Hf.
+  Qed.
+
+  (* number of trailing elements of p equal to c *)
+  Fixpoint lead_count (c : Z) (l : list Z) : nat :=
+    match l with x :: r => if x =? c then S (lead_count c r) else O | [] => O end.
+  Definition trail_count (c : Z) (p : list Z) : nat := lead_count c (rev p).
+
+  Lemma trail_count_snoc c p x : trail_count c (p ++ [x]) = if x =? c then S (trail_count c p) else O.
+  Proof. unfold trail_count. rewrite rev_app_distr. reflexivity. Qed.
+
+  Lemma trail_count_repeat c pre n : (n <= trail_count c (pre ++ repeat c n))%nat.
+  Proof.
+    induction n as [|n IH]; [lia|].
+    replace (pre ++ repeat c (S n)) with ((pre ++ repeat c n) ++ [c]).
+    - rewrite trail_count_snoc, Z.eqb_refl. lia.
+    - rewrite <- app_assoc. f_equal. cbn [repeat]. symmetry. apply repeat_cons.
+  Qed.
+
+  Lemma sc_char_prev st c st' : sc_char st c = Some st' ->
+    previous st' = c /\
+    previous_run st' = (if previous st =? c then (previous_run st + 1)%N else 1%N) /\
+    ((previous st =? c) = true -> is_uspace c = false -> (previous_run st + 1 < sc_character_run o)%N).
+  Proof.
+    unfold FiltersDefs.sc_char.
+    destruct ((c <? sc_control_bound) && negb (c =? 9) && negb (c =? 13)); [discriminate|].
+    destruct (script_of c); [|discriminate].
+    destruct (Z.eqb_spec (previous st) c) as [E|E].
+    - destruct (N.leb_spec (sc_character_run o) (previous_run st + 1)) as [Hle|Hlt]; destruct (is_uspace c) eqn:Sp; cbn [negb andb];
+        try discriminate; intros H0; injection H0 as <-; cbn [previous previous_run];
+        (split; [exact E|]; split; [reflexivity|]; intros _ Hs; first [congruence | lia]).
+    - intros H0; injection H0 as <-. cbn [previous previous_run]. split; [reflexivity|]. split; [reflexivity|].
+      intros Hc _. congruence.
+  Qed.
+
+  (* after a non-empty prefix: previous = its last code point, previous_run = length of its final run *)
+  Lemma sc_fold_inv : forall p st, sc_fold sc_init p = Some st -> p <> [] ->
+    previous st = last p 0 /\ previous_run st = N.of_nat (trail_count (last p 0) p).
+  Proof.
+    induction p as [|x p IH] using rev_ind; intros st H Hne; [congruence|].
+    unfold sc_fold in H. rewrite fold_left_app in H. cbn [fold_left] in H.
+    destruct (fold_left _ p (Some sc_init)) as [s|] eqn:F; [|discriminate].
+    destruct (sc_char_prev _ _ _ H) as (P1 & P2 & _). rewrite last_last, trail_count_snoc, Z.eqb_refl.
+    split; [exact P1|]. rewrite P2.
+    destruct p as [|y p'] using rev_ind.
+    - (* first code point: previous = 0 initially *)
+      simpl in F. injection F as <-. cbn [previous previous_run sc_init].
+      destruct (Z.eqb_spec 0 x) as [<-|Nx].
+      + (* x = 0 is a control character: sc_char rejects it *)
+        exfalso. unfold FiltersDefs.sc_char, sc_control_bound in H. simpl in H. discriminate.
+      + unfold trail_count. simpl. reflexivity.
+    - clear IHp'. destruct (IH s F) as [Q1 Q2]; [intros E; apply app_eq_nil in E; destruct E; discriminate|].
+      rewrite last_last in Q1, Q2. rewrite Q1, Q2, trail_count_snoc.
+      destruct (Z.eqb_spec y x) as [->|Ne].
+      + rewrite Z.eqb_refl. rewrite trail_count_snoc, Z.eqb_refl. lia.
+      + rewrite trail_count_snoc. destruct (Z.eqb_spec y x); [contradiction|reflexivity].
+  Qed.
+
+  Theorem sc_filter_no_long_run l cps : (2 <= sc_character_run o)%N -> sc_filter l = true -> codepoints l = Some cps ->
+    forall pre c post, cps = pre ++ repeat c (N.to_nat (sc_character_run o)) ++ post -> is_uspace c = true.
+  Proof.
+    intros HR HF Hc pre c post E.
+    unfold FiltersDefs.sc_filter in HF. destruct (sc_loop (length l) sc_init l) as [st|] eqn:H; [|discriminate].
+    destruct (sc_loop_fold _ _ _ _ H) as (cps' & Hc' & Hf). unfold codepoints in Hc. rewrite Hc in Hc'. injection Hc' as <-.
+    destruct (is_uspace c) eqn:Sp; [reflexivity|exfalso].
+    set (R := N.to_nat (sc_character_run o)) in *.
+    assert (HR' : (2 <= R)%nat) by (unfold R; lia).
+    (* split the fold at the last copy of the run *)
+    destruct R as [|R'] eqn:ER; [lia|].
+    assert (E' : cps = ((pre ++ repeat c R') ++ [c]) ++ post).
+    { rewrite E. cbn [repeat]. rewrite repeat_cons. rewrite <- !app_assoc. reflexivity. }
+    rewrite E' in Hf. unfold sc_fold in Hf.
+    rewrite (fold_left_app _ ((pre ++ repeat c R') ++ [c]) post) in Hf.
+    rewrite (fold_left_app _ (pre ++ repeat c R') [c]) in Hf. cbn [fold_left] in Hf.
+    destruct (fold_left _ (pre ++ repeat c R') (Some sc_init)) as [s|] eqn:F.
+    - destruct (sc_char s c) as [s1|] eqn:C.
+      + destruct (sc_fold_inv (pre ++ repeat c R') s F) as [Q1 Q2].
+        { intros En. apply app_eq_nil in En. destruct En as [_ En]. destruct R'; [lia|discriminate]. }
+        assert (Hl : last (pre ++ repeat c R') 0 = c).
+        { destruct R' as [|R'']; [lia|]. cbn [repeat]. rewrite repeat_cons. rewrite app_assoc. apply last_last. }
+        rewrite Hl in Q1, Q2.
+        destruct (sc_char_prev _ _ _ C) as (_ & _ & P3).
+        assert (Hlt : (previous_run s + 1 < sc_character_run o)%N) by (apply P3; auto; rewrite Q1; apply Z.eqb_refl).
+        pose proof (trail_count_repeat c pre R'). lia.
+      + cbn in Hf. rewrite sc_fold_none in Hf. discriminate.
+    - cbn in Hf. rewrite sc_fold_none in Hf. discriminate.
+  Qed.
+
   (* whole lines: all fields selected (the default -f 1-), delimiter an ASCII byte that is itself allowed *)
   Lemma split_first_spec d : forall bs acc field after, split_first d bs acc = (field, after) ->
     rev acc ++ bs = field ++ (match after with None => [] | Some r => d :: r end).
@@ -314,7 +471,7 @@ Section SimpleCleaning.
   Lemma take_fields_all_safe d : 0 <= d < 128 -> safe_byte d = true ->
     forall fuel rest, take_fields script_of is_punct is_uspace script_common script_inherited too_common little_punct script_low o
                                   fuel None d rest = inl true ->
-    (fuel > length rest)%nat -> wf_utf8 rest = true /\ safe_bytes rest = true.
+    (fuel > S (length rest))%nat -> wf_utf8 rest = true /\ safe_bytes rest = true.
   Proof.
     intros Hd Sd. induction fuel as [|fuel IH]; intros rest H Hf; [lia|].
     cbn [take_fields] in H. destruct (split_first d rest []) as [field after] eqn:Sp.
@@ -322,13 +479,11 @@ Section SimpleCleaning.
     destruct (sc_filter field) eqn:F; cbn [negb] in H; [|discriminate].
     destruct (sc_filter_safe field F) as [Wf Sf].
     assert (Wd : wf_utf8 [d] = true) by (apply wf_utf8_ascii; auto).
-    destruct after as [[|x r]|].
-    - rewrite E. split; [apply wf_utf8_app; auto|]. unfold safe_bytes. rewrite forallb_app. fold (safe_bytes field).
-      rewrite Sf. simpl. rewrite Sd. reflexivity.
-    - assert (Hlen : (length (x :: r) < length rest)%nat).
+    destruct after as [r|].
+    - assert (Hlen : (length r < length rest)%nat).
       { rewrite E, app_length. simpl. lia. }
-      destruct (IH (x :: r) H ltac:(lia)) as [Wr Sr]. rewrite E. split.
-      + apply wf_utf8_app; auto. change (d :: x :: r) with ([d] ++ x :: r). apply wf_utf8_app; auto.
+      destruct (IH r H ltac:(lia)) as [Wr Sr]. rewrite E. split.
+      + apply wf_utf8_app; auto. change (d :: r) with ([d] ++ r). apply wf_utf8_app; auto.
       + unfold safe_bytes. rewrite forallb_app. fold (safe_bytes field). rewrite Sf. cbn [forallb andb].
         rewrite Sd. exact Sr.
     - rewrite E, app_nil_r. auto.
@@ -340,12 +495,12 @@ Section SimpleCleaning.
   Proof.
     intros Hd Sd. unfold sc_line_keep. cbn [individual_fields Nat.sub skip_fields Nat.max].
     destruct (take_fields script_of is_punct is_uspace script_common script_inherited too_common little_punct script_low o
-                          (S (length l)) None d l) as [[|]|rest] eqn:T; try discriminate.
+                          (S (S (length l))) None d l) as [[|]|rest] eqn:T; try discriminate.
     - intros _. eapply take_fields_all_safe; eauto.
     - (* the unbounded range is never "exhausted" *)
-      exfalso. revert T. generalize (S (length l)) as fuel. intros fuel; revert l.
+      exfalso. revert T. generalize (S (S (length l))) as fuel. intros fuel; revert l.
       induction fuel as [|fuel IH]; intros l T; [discriminate|].
       cbn [take_fields] in T. destruct (split_first d l []) as [field after].
-      destruct (negb (sc_filter field)); [discriminate|]. destruct after as [[|x r]|]; try discriminate. eauto.
+      destruct (negb (sc_filter field)); [discriminate|]. destruct after as [r|]; try discriminate. eauto.
   Qed.
 End SimpleCleaning.
